@@ -35,6 +35,9 @@ HIST_POOL = [
     "# language: en\nFeature: e\n  Scenario: s\n    When x\n",
     "Fonctionnalit\u00e9: g\n  Sc\u00e9nario: t\n    Soit y\n",
     "Feature: w\n  Scenario Outline: o\n    And <h>\n    Examples:\n      | h |\n      | 1 |\n      | 2 |\n",
+    # two perturbations in one document: a dialect switch AND a doc string that is closed again / left open / indented deeper than what follows
+    "# language: fr\nFonctionnalit\u00e9: A\n  Sc\u00e9nario: un\n    Soit un texte\n      \"\"\"\n      bonjour\n      \"\"\"\n    Alors ok\n",
+    "# language: fr\nFonctionnalit\u00e9: B\n  Sc\u00e9nario: un\n    Soit un texte\n          ```\n      ouvert\n",
 ]
 SCHED_POOL = [
     "Feature: a\n  Scenario: s\n    Given x\n",
